@@ -53,6 +53,7 @@ class Profile:
     p_alias_sub: float = 0.12        # per scenario: an event re-declared under a second name by a subclass
     p_state_field: float = 0.12      # per scenario: the model attribute is not called `state`
     p_attr: float = 0.18             # per guard given by name: it is a plain attribute (a value), not a method
+    p_share: float = 0.3             # per scenario: a named callback referred to from several transitions
 
 
 def gen_machine(rng: random.Random, P: Profile, scn: Scn):
@@ -192,11 +193,38 @@ def gen_callbacks(rng: random.Random, P: Profile, scn: Scn, evs):
         for c in scn.cbs:
             if c.style == "callable" and rng.random() < 0.2:
                 c.name = rng.choice(methods)
+    # one method referred to by name from several transitions (`cond="ok"` on two candidates of one event, `on="log"`
+    # on many transitions): one function, one callback id per place of use
+    if rng.random() < P.p_share:
+        def sig_of(t):
+            return (t.src, t.tgt, tuple(sorted(t.events)), t.internal)
+        uniq = [ti for ti, t in enumerate(scn.trans) if not t.any
+                and sum(1 for u in scn.trans if not u.any and sig_of(u) == sig_of(t)) == 1]
+        busy = {x.alias_of for x in scn.cbs if x.alias_of} | {x.id for x in scn.cbs if x.alias_of}
+        prims = [c for c in scn.cbs if c.style == "name" and c.at[0] == "t" and c.at[1] in uniq and c.id not in busy
+                 and sum(1 for x in scn.cbs if x.name == c.name) == 1 and c.wrap != "prop"]
+        rng.shuffle(prims)
+        for c in prims[:rng.choice([1, 1, 2])]:
+            t0 = scn.trans[c.at[1]]
+            # candidates of the same (state, event) first: that is where a guard shared between transitions matters
+            near = [ti for ti in uniq if ti != c.at[1] and scn.trans[ti].src == t0.src
+                    and set(scn.trans[ti].events) & set(t0.events)]
+            far = [ti for ti in uniq if ti != c.at[1] and ti not in near]
+            rng.shuffle(far)
+            places = (near + far)[:rng.choice([1, 1, 2])]
+            if not places:
+                continue
+            c.sig, c.named = rng.choice(["ed", "kwargs"]), ()
+            for tj in places:
+                cid[0] += 1
+                scn.cbs.append(Cb(cid[0], c.group, "name", c.provider, c.name, ("t", tj), coro=c.coro, sig=c.sig,
+                                  named=(), yields=c.yields, wrap=c.wrap, same_as=c.id))
     # a guard (or an action whose value nobody uses) given by name may be a *plain attribute* of its provider: the value
     # read at that moment is the callback's value (`dispatcher.attr_method`)
     shared = {x.alias_of for x in scn.cbs if x.alias_of}
     for c in scn.cbs:
-        if c.style == "name" and not c.alias_of and c.id not in shared and not c.coro:
+        if c.style == "name" and not c.alias_of and c.id not in shared and not c.coro and not c.same_as \
+                and not any(x.same_as == c.id for x in scn.cbs):
             pa = P.p_attr if c.group in ("cond", "unless") else (P.p_attr / 3 if c.group in ("after", "enter", "exit") else 0)
             if rng.random() < pa:
                 c.style, c.wrap, c.sig, c.named = "attr", "", "bare", ()
